@@ -424,3 +424,362 @@ Check C01_exact_theorems_transfer :
     run rep init txs = (ds, o) -> opstopb o = false ->
     run dec init txs = (ds, o) /\ P init txs ds o.
 Print Assumptions C01_exact_theorems_transfer.
+
+(* ------------------------------------------------------------------------
+   Rounding half of C01, continued (branch ext/dec2): the other arms of one
+   row, and the accumulation over a history without superficial losses
+   (Proofs/DecSellError.v, DecSellRow.v, DecAccumulate.v). *)
+From ACB Require Import Proofs.DecSellError Proofs.DecSellRow Proofs.DecAccumulate.
+
+(* The Sell arm below the superficial-loss computation ([sell_core]: the
+   remaining shares, the ROUNDED per-share cost = cost base / shares, the new
+   cost base = remaining shares x per-share cost, proceeds, commission, cost of
+   the shares sold = per-share cost x sold, gain), from a rounded and an exact
+   pre-state with the same share balance whose cost bases differ by at most
+   eps: shares held and sold, price, commission at most 10^k, rates at most
+   10, the per-share cost at most 10^(k+1), and the remaining share count not
+   rounded.  The incoming eps is passed on with the factor remaining / held
+   (resp. sold / held) <= 1; the roundings of the arm add
+     new cost base: 10^k u(k+1) + u(2k+2)            = 0.55 * 10^-(26-2k)
+     gain:          10 u(2k) + 10^k u(k+1) + 5 u(2k+2) = 2.6 * 10^-(26-2k). *)
+Theorem C01_sell_row_error : forall (k : nat) (eps : Qc) pre_d pre_e sh aps com rate crate od oe cd ce,
+  (2 * k + 2 <= 28)%nat ->
+  0 < sh -> 0 <= aps -> 0 <= com -> 0 < rate -> 0 < crate ->
+  s_sh pre_d = s_sh pre_e -> s_acb pre_d = Some od -> s_acb pre_e = Some oe ->
+  0 <= eps -> oe - eps <= od -> od <= oe + eps ->
+  sh <= T k -> aps <= T k -> com <= T k -> rate <= T 1 -> crate <= T 1 -> s_sh pre_d <= T k ->
+  0 <= od -> od <= T (k + 1) * s_sh pre_d ->
+  sell_core dec pre_d sh aps com rate crate = Ok cd ->
+  sell_core exact pre_e sh aps com rate crate = Ok ce ->
+  sc_sh cd = sc_sh ce ->
+  exists nd ne gd ge,
+    sc_acb cd = Some nd /\ sc_acb ce = Some ne /\ sc_gain cd = Some gd /\ sc_gain ce = Some ge /\
+    ne = (s_sh pre_e - sh) * (oe / s_sh pre_e) /\
+    ge = aps * sh * rate - com * crate - oe / s_sh pre_e * sh /\
+    (ne - (eps + T k * u (k + 1) + u (2 * k + 2)) <= nd /\ nd <= ne + (eps + T k * u (k + 1) + u (2 * k + 2))) /\
+    (ge - (eps + u (2 * k) * T 1 + T k * u (k + 1) + (1 + 1 + 1 + 1 + 1) * u (2 * k + 2)) <= gd /\
+     gd <= ge + (eps + u (2 * k) * T 1 + T k * u (k + 1) + (1 + 1 + 1 + 1 + 1) * u (2 * k + 2))) /\
+    0 <= nd.
+Proof. exact DecSellRow.sell_row_error_pow10. Qed.
+Check C01_sell_row_error : forall (k : nat) (eps : Qc) pre_d pre_e sh aps com rate crate od oe cd ce,
+  (2 * k + 2 <= 28)%nat ->
+  0 < sh -> 0 <= aps -> 0 <= com -> 0 < rate -> 0 < crate ->
+  s_sh pre_d = s_sh pre_e -> s_acb pre_d = Some od -> s_acb pre_e = Some oe ->
+  0 <= eps -> oe - eps <= od -> od <= oe + eps ->
+  sh <= T k -> aps <= T k -> com <= T k -> rate <= T 1 -> crate <= T 1 -> s_sh pre_d <= T k ->
+  0 <= od -> od <= T (k + 1) * s_sh pre_d ->
+  sell_core dec pre_d sh aps com rate crate = Ok cd ->
+  sell_core exact pre_e sh aps com rate crate = Ok ce ->
+  sc_sh cd = sc_sh ce ->
+  exists nd ne gd ge,
+    sc_acb cd = Some nd /\ sc_acb ce = Some ne /\ sc_gain cd = Some gd /\ sc_gain ce = Some ge /\
+    ne = (s_sh pre_e - sh) * (oe / s_sh pre_e) /\
+    ge = aps * sh * rate - com * crate - oe / s_sh pre_e * sh /\
+    (ne - (eps + T k * u (k + 1) + u (2 * k + 2)) <= nd /\ nd <= ne + (eps + T k * u (k + 1) + u (2 * k + 2))) /\
+    (ge - (eps + u (2 * k) * T 1 + T k * u (k + 1) + (1 + 1 + 1 + 1 + 1) * u (2 * k + 2)) <= gd /\
+     gd <= ge + (eps + u (2 * k) * T 1 + T k * u (k + 1) + (1 + 1 + 1 + 1 + 1) * u (2 * k + 2))) /\
+    0 <= nd.
+Print Assumptions C01_sell_row_error.
+
+(* general form: price x sold <= 10^j1, rate <= R, commission in CAD <= C,
+   shares held <= N, per-share cost <= 10^jp, all values of the arm < 10^J *)
+Theorem C01_sell_row_error_general : forall (j1 jp J : nat) (R C N eps : Qc) pre_d pre_e sh aps com rate crate od oe cd ce,
+  (j1 <= 28)%nat -> (jp <= 28)%nat -> (J <= 28)%nat ->
+  0 < sh -> 0 <= aps -> 0 <= com -> 0 < rate -> 0 < crate ->
+  s_sh pre_d = s_sh pre_e -> s_acb pre_d = Some od -> s_acb pre_e = Some oe ->
+  0 <= eps -> oe - eps <= od -> od <= oe + eps ->
+  aps * sh <= T j1 -> rate <= R -> com * crate <= C -> s_sh pre_d <= N ->
+  0 <= od -> od <= T jp * s_sh pre_d ->
+  (T j1 + 1) * R + C + N * (T jp + 1) + (1 + 1 + 1) <= T J ->
+  sell_core dec pre_d sh aps com rate crate = Ok cd ->
+  sell_core exact pre_e sh aps com rate crate = Ok ce ->
+  sc_sh cd = sc_sh ce ->
+  exists nd ne gd ge,
+    sc_acb cd = Some nd /\ sc_acb ce = Some ne /\ sc_gain cd = Some gd /\ sc_gain ce = Some ge /\
+    ne = (s_sh pre_e - sh) * (oe / s_sh pre_e) /\
+    ge = aps * sh * rate - com * crate - oe / s_sh pre_e * sh /\
+    (ne - (eps + N * u jp + u J) <= nd /\ nd <= ne + (eps + N * u jp + u J)) /\
+    (ge - (eps + u j1 * R + N * u jp + (1 + 1 + 1 + 1 + 1) * u J) <= gd /\
+     gd <= ge + (eps + u j1 * R + N * u jp + (1 + 1 + 1 + 1 + 1) * u J)) /\
+    0 <= nd.
+Proof. exact DecSellRow.sell_row_error. Qed.
+Check C01_sell_row_error_general : forall (j1 jp J : nat) (R C N eps : Qc) pre_d pre_e sh aps com rate crate od oe cd ce,
+  (j1 <= 28)%nat -> (jp <= 28)%nat -> (J <= 28)%nat ->
+  0 < sh -> 0 <= aps -> 0 <= com -> 0 < rate -> 0 < crate ->
+  s_sh pre_d = s_sh pre_e -> s_acb pre_d = Some od -> s_acb pre_e = Some oe ->
+  0 <= eps -> oe - eps <= od -> od <= oe + eps ->
+  aps * sh <= T j1 -> rate <= R -> com * crate <= C -> s_sh pre_d <= N ->
+  0 <= od -> od <= T jp * s_sh pre_d ->
+  (T j1 + 1) * R + C + N * (T jp + 1) + (1 + 1 + 1) <= T J ->
+  sell_core dec pre_d sh aps com rate crate = Ok cd ->
+  sell_core exact pre_e sh aps com rate crate = Ok ce ->
+  sc_sh cd = sc_sh ce ->
+  exists nd ne gd ge,
+    sc_acb cd = Some nd /\ sc_acb ce = Some ne /\ sc_gain cd = Some gd /\ sc_gain ce = Some ge /\
+    ne = (s_sh pre_e - sh) * (oe / s_sh pre_e) /\
+    ge = aps * sh * rate - com * crate - oe / s_sh pre_e * sh /\
+    (ne - (eps + N * u jp + u J) <= nd /\ nd <= ne + (eps + N * u jp + u J)) /\
+    (ge - (eps + u j1 * R + N * u jp + (1 + 1 + 1 + 1 + 1) * u J) <= gd /\
+     gd <= ge + (eps + u j1 * R + N * u jp + (1 + 1 + 1 + 1 + 1) * u J)) /\
+    0 <= nd.
+Print Assumptions C01_sell_row_error_general.
+
+(* Non-vacuity (k = 1): 1 of 3 shares sold at 5 with 0.5 commission from a cost
+   base of 10/3 (exact) resp. 3.3333333333333333333333333333 (rounded): the
+   hypotheses hold, both arms succeed with 2 shares left, and both the new
+   cost bases and the gains differ. *)
+Definition sre_pre (acb : Qc) : status := {| s_sh := q 3 1; s_all := q 3 1; s_acb := Some acb |}.
+Example C01_sell_row_error_nonvacuous :
+  (bre_oe - bre_eps <= bre_od /\ bre_od <= bre_oe + bre_eps) /\
+  (q 3 1 <= T 1 /\ q 5 1 <= T 1 /\ q 1 2 <= T 1 /\ q 1 1 <= T 1) /\
+  (0 <= bre_od /\ bre_od <= T (1 + 1) * q 3 1) /\
+  match sell_core dec (sre_pre bre_od) (q 1 1) (q 5 1) (q 1 2) (q 1 1) (q 1 1),
+        sell_core exact (sre_pre bre_oe) (q 1 1) (q 5 1) (q 1 2) (q 1 1) (q 1 1) with
+  | Ok cd, Ok ce =>
+      this (sc_sh cd) = this (sc_sh ce) /\
+      match sc_acb cd, sc_acb ce, sc_gain cd, sc_gain ce with
+      | Some nd, Some ne, Some gd, Some ge => this nd <> this ne /\ this gd <> this ge
+      | _, _, _, _ => False
+      end
+  | _, _ => False
+  end.
+Proof.
+  split; [split; vm_compute; discriminate|].
+  split; [repeat split; vm_compute; discriminate|].
+  split; [split; vm_compute; discriminate|].
+  vm_compute. split; [reflexivity|]. split; discriminate.
+Qed.
+
+(* The return-of-capital arm: amount per share x shares held (10^k each),
+   x rate (<= 10), subtracted from the cost base (<= 10^(2k+1)):
+   eps + 10 u(2k) + 2 u(2k+2) = eps + 1.05 * 10^-(26-2k). *)
+Theorem C01_roc_row_error : forall (k : nat) (eps : Qc) t pre_d pre_e aps rate od oe dd de,
+  (2 * k + 2 <= 28)%nat ->
+  t_act t = Roc aps rate -> valid_tx t = true ->
+  s_sh pre_d = s_sh pre_e -> s_acb pre_d = Some od -> s_acb pre_e = Some oe ->
+  oe - eps <= od -> od <= oe + eps ->
+  0 <= s_sh pre_d -> s_sh pre_d <= T k -> aps <= T k -> rate <= T 1 -> 0 <= od -> od <= T (2 * k + 1) ->
+  delta_nonsell dec t pre_d = Ok dd -> delta_nonsell exact t pre_e = Ok de ->
+  exists nd ne,
+    s_acb (d_post dd) = Some nd /\ s_acb (d_post de) = Some ne /\
+    ne = oe - aps * s_sh pre_e * rate /\
+    ne - (eps + u (2 * k) * T 1 + (1 + 1) * u (2 * k + 2)) <= nd /\
+    nd <= ne + (eps + u (2 * k) * T 1 + (1 + 1) * u (2 * k + 2)) /\
+    s_sh (d_post dd) = s_sh pre_d /\ s_sh (d_post de) = s_sh pre_e /\
+    s_all (d_post dd) = s_all pre_d /\ s_all (d_post de) = s_all pre_e /\
+    d_gain dd = None /\ d_gain de = None /\ 0 <= nd.
+Proof. exact DecSellRow.roc_row_error_pow10. Qed.
+Check C01_roc_row_error : forall (k : nat) (eps : Qc) t pre_d pre_e aps rate od oe dd de,
+  (2 * k + 2 <= 28)%nat ->
+  t_act t = Roc aps rate -> valid_tx t = true ->
+  s_sh pre_d = s_sh pre_e -> s_acb pre_d = Some od -> s_acb pre_e = Some oe ->
+  oe - eps <= od -> od <= oe + eps ->
+  0 <= s_sh pre_d -> s_sh pre_d <= T k -> aps <= T k -> rate <= T 1 -> 0 <= od -> od <= T (2 * k + 1) ->
+  delta_nonsell dec t pre_d = Ok dd -> delta_nonsell exact t pre_e = Ok de ->
+  exists nd ne,
+    s_acb (d_post dd) = Some nd /\ s_acb (d_post de) = Some ne /\
+    ne = oe - aps * s_sh pre_e * rate /\
+    ne - (eps + u (2 * k) * T 1 + (1 + 1) * u (2 * k + 2)) <= nd /\
+    nd <= ne + (eps + u (2 * k) * T 1 + (1 + 1) * u (2 * k + 2)) /\
+    s_sh (d_post dd) = s_sh pre_d /\ s_sh (d_post de) = s_sh pre_e /\
+    s_all (d_post dd) = s_all pre_d /\ s_all (d_post de) = s_all pre_e /\
+    d_gain dd = None /\ d_gain de = None /\ 0 <= nd.
+Print Assumptions C01_roc_row_error.
+
+Local Open Scope Z_scope.
+Definition rre_t : tx := mk 100 (Roc (q 3333 10000) (q 13456 10000)) default_aff.
+Local Close Scope Z_scope.
+Example C01_roc_row_error_nonvacuous :
+  valid_tx rre_t = true /\
+  (q 3 1 <= T 1 /\ q 3333 10000 <= T 1 /\ q 13456 10000 <= T 1 /\ bre_od <= T (2 * 1 + 1)) /\
+  match delta_nonsell dec rre_t (sre_pre bre_od), delta_nonsell exact rre_t (sre_pre bre_oe) with
+  | Ok dd, Ok de => match s_acb (d_post dd), s_acb (d_post de) with
+                    | Some nd, Some ne => this nd <> this ne
+                    | _, _ => False
+                    end
+  | _, _ => False
+  end.
+Proof.
+  split; [vm_compute; reflexivity|].
+  split; [repeat split; vm_compute; discriminate|].
+  vm_compute. discriminate.
+Qed.
+
+(* The Split arm: the cost base is carried over unchanged under ANY
+   arithmetic (so an incoming eps stays eps); the rounded share balance
+   (balance x post, / pre, two roundings) is within u(j1) + u(j2) of
+   balance x post / pre when pre >= 1. *)
+Theorem C01_split_row_cost_unchanged : forall (A : arith) t pre post pre_ io d,
+  t_act t = Split post pre_ io -> delta_nonsell A t pre = Ok d ->
+  s_acb (d_post d) = s_acb pre /\ d_gain d = None.
+Proof. exact DecSellRow.split_row_cost. Qed.
+Check C01_split_row_cost_unchanged : forall (A : arith) t pre post pre_ io d,
+  t_act t = Split post pre_ io -> delta_nonsell A t pre = Ok d ->
+  s_acb (d_post d) = s_acb pre /\ d_gain d = None.
+Print Assumptions C01_split_row_cost_unchanged.
+
+Theorem C01_split_row_shares_error : forall (j1 j2 : nat) t pre post pre_ io d,
+  (j1 <= 28)%nat -> (j2 <= 28)%nat ->
+  t_act t = Split post pre_ io -> valid_tx t = true -> 1 <= pre_ ->
+  0 <= s_sh pre -> s_sh pre * post <= T j1 -> T j1 + 1 <= T j2 ->
+  delta_nonsell dec t pre = Ok d ->
+  s_sh pre * post / pre_ - (u j1 + u j2) <= s_sh (d_post d) /\
+  s_sh (d_post d) <= s_sh pre * post / pre_ + (u j1 + u j2).
+Proof. exact DecSellRow.split_row_shares. Qed.
+Check C01_split_row_shares_error : forall (j1 j2 : nat) t pre post pre_ io d,
+  (j1 <= 28)%nat -> (j2 <= 28)%nat ->
+  t_act t = Split post pre_ io -> valid_tx t = true -> 1 <= pre_ ->
+  0 <= s_sh pre -> s_sh pre * post <= T j1 -> T j1 + 1 <= T j2 ->
+  delta_nonsell dec t pre = Ok d ->
+  s_sh pre * post / pre_ - (u j1 + u j2) <= s_sh (d_post d) /\
+  s_sh (d_post d) <= s_sh pre * post / pre_ + (u j1 + u j2).
+Print Assumptions C01_split_row_shares_error.
+
+Local Open Scope Z_scope.
+Definition sps_t : tx := mk 100 (Split (q 1 1) (q 3 1) false) default_aff.
+Definition sps_pre : status := {| s_sh := q 10 1; s_all := q 10 1; s_acb := Some (q 7 1) |}.
+Local Close Scope Z_scope.
+Example C01_split_row_nonvacuous :
+  valid_tx sps_t = true /\ (s_sh sps_pre * q 1 1 <= T 1 /\ T 1 + 1 <= T 2) /\
+  match delta_nonsell dec sps_t sps_pre with
+  | Ok d => this (s_sh (d_post d)) <> this (s_sh sps_pre * q 1 1 / q 3 1) /\ s_acb (d_post d) = Some (q 7 1)
+  | _ => False
+  end.
+Proof.
+  split; [vm_compute; reflexivity|]. split; [split; vm_compute; discriminate|].
+  vm_compute. split; [discriminate | reflexivity].
+Qed.
+
+(* ACCUMULATION over a history.  [in_class k dsd dse] (executable, over the
+   rows of the rounded run [dsd] and of the exact run [dse], pairwise on their
+   common prefix): neither row reports a superficial loss; the share balances
+   after the row agree (no share count was rounded, e.g. by a non-terminating
+   split); the affiliate has a cost base (not registered) with
+   0 <= cost base <= 10^(2k+1); the row is a Buy / Sell / RoC / Split with
+   shares, price, commission <= 10^k and rates <= 10, for Sell and RoC the
+   shares held <= 10^k, for Sell the (rounded) cost base <= 10^(k+1) per share
+   held.  Any number of affiliates, any length; the two runs may stop at
+   different rows (accept / reject decisions can differ by rounding): the
+   statement is about the rows both report.
+
+   For every such history the figures of row i (counting from 0) of the
+   rounded ledger lie within (i+1) * cR k of the exact ledger's:
+   share balances equal, total cost base and capital gain within
+     (i+1) * (10 u(2k) + 10^k u(k+1) + 5 u(2k+2)) = (i+1) * 2.6 * 10^-(26-2k).
+   The error adds up and is not amplified because each row map is
+   1-Lipschitz in the cost base (Buy, RoC: translation; Split: identity;
+   Sell: multiplication by remaining/held <= 1, gain: by sold/held <= 1).
+
+   In numbers ([cR_6], [cR_9]):
+     k = 4 (quantities below 10^4, values below 10^10): 2.6e-18 per row;
+     k = 6 (below a million, values below 10^14):        2.6e-14 per row, so
+           below 1e-9 (the tolerance TOL of lib/props/c01.py) for the first
+           38461 rows: C01_rounding_error_bound;
+     k = 9 (below a billion, values below 10^20):        2.6e-8 per row - the
+           guarantee at that magnitude is 2.6e-4 after 10000 rows, NOT 1e-9
+           (rust_decimal keeps 28 digits: at 10^20 only 8 places are left). *)
+Theorem C01_rounding_error_accumulates : forall (k : nat) init txs dsd od dse oe,
+  (2 * k + 2 <= 28)%nat ->
+  Forall (fun t => valid_tx t = true) txs ->
+  run dec init txs = (dsd, od) -> run exact init txs = (dse, oe) ->
+  in_class k dsd dse = true ->
+  forall i dd de, nth_error dsd i = Some dd -> nth_error dse i = Some de ->
+    fig_close (QcZ (Z.of_nat (S i)) * cR k) dd de.
+Proof. exact DecAccumulate.run_error_accumulates. Qed.
+Check C01_rounding_error_accumulates : forall (k : nat) init txs dsd od dse oe,
+  (2 * k + 2 <= 28)%nat ->
+  Forall (fun t => valid_tx t = true) txs ->
+  run dec init txs = (dsd, od) -> run exact init txs = (dse, oe) ->
+  in_class k dsd dse = true ->
+  forall i dd de, nth_error dsd i = Some dd -> nth_error dse i = Some de ->
+    fig_close (QcZ (Z.of_nat (S i)) * cR k) dd de.
+Print Assumptions C01_rounding_error_accumulates.
+
+(* what [fig_close] says, spelled out *)
+Theorem C01_fig_close_means : forall e dd de,
+  fig_close e dd de <->
+  (s_sh (d_post dd) = s_sh (d_post de) /\ s_all (d_post dd) = s_all (d_post de) /\
+   match s_acb (d_post dd), s_acb (d_post de) with
+   | Some x, Some y => y - e <= x /\ x <= y + e | None, None => True | _, _ => False end) /\
+  match d_gain dd, d_gain de with
+  | Some x, Some y => y - e <= x /\ x <= y + e | None, None => True | _, _ => False end.
+Proof. intros e dd de. reflexivity. Qed.
+Check C01_fig_close_means : forall e dd de,
+  fig_close e dd de <->
+  (s_sh (d_post dd) = s_sh (d_post de) /\ s_all (d_post dd) = s_all (d_post de) /\
+   match s_acb (d_post dd), s_acb (d_post de) with
+   | Some x, Some y => y - e <= x /\ x <= y + e | None, None => True | _, _ => False end) /\
+  match d_gain dd, d_gain de with
+  | Some x, Some y => y - e <= x /\ x <= y + e | None, None => True | _, _ => False end.
+Print Assumptions C01_fig_close_means.
+
+(* the per-row constant in closed form, for two magnitudes *)
+Theorem C01_row_constant : cR 6 = Qcfrac 13 500000000000000 /\ cR 9 = Qcfrac 13 500000000.
+Proof. exact (conj DecAccumulate.cR_6 DecAccumulate.cR_9). Qed.
+Check C01_row_constant : cR 6 = Qcfrac 13 500000000000000 /\ cR 9 = Qcfrac 13 500000000.
+Print Assumptions C01_row_constant.
+
+(* THE INSTANCE: quantities below a million, rates at most 10, the first 38461
+   reported rows: "up to decimal rounding" = within 1e-9, as the check measures
+   it (TOL in lib/props/c01.py); 38461 * 2.6e-14 = 9.99986e-10. *)
+Theorem C01_rounding_error_bound : forall init txs dsd od dse oe,
+  Forall (fun t => valid_tx t = true) txs ->
+  run dec init txs = (dsd, od) -> run exact init txs = (dse, oe) ->
+  in_class 6 dsd dse = true ->
+  forall i dd de, (Z.of_nat i < 38461)%Z -> nth_error dsd i = Some dd -> nth_error dse i = Some de ->
+    fig_close (Qcfrac 1 1000000000) dd de.
+Proof. exact DecAccumulate.run_error_bound_million. Qed.
+Check C01_rounding_error_bound : forall init txs dsd od dse oe,
+  Forall (fun t => valid_tx t = true) txs ->
+  run dec init txs = (dsd, od) -> run exact init txs = (dse, oe) ->
+  in_class 6 dsd dse = true ->
+  forall i dd de, (Z.of_nat i < 38461)%Z -> nth_error dsd i = Some dd -> nth_error dse i = Some de ->
+    fig_close (Qcfrac 1 1000000000) dd de.
+Print Assumptions C01_rounding_error_bound.
+
+(* The full rounding half of the property (NOT proved): the same bound for
+   every history, including superficial losses (ratio division, denied
+   amount, the buyers' portions) and rounded share balances. *)
+Definition C01_rounding_error_full : Prop := forall init txs dsd od dse oe,
+  Forall (fun t => valid_tx t = true) txs ->
+  run dec init txs = (dsd, od) -> run exact init txs = (dse, oe) ->
+  (forall d, In d dsd -> forall x, In x [s_sh (d_pre d); s_sh (d_post d)] -> x <= T 6) ->
+  forall i dd de, (Z.of_nat i < 38461)%Z -> nth_error dsd i = Some dd -> nth_error dse i = Some de ->
+    fig_close (Qcfrac 1 1000000000) dd de.
+
+(* Non-vacuity (k = 1): six rows of one affiliate - buy 3 at 3 plus 1
+   commission (cost base 10), sell 1 at 5 (per-share cost 10/3: rounds),
+   buy 2 at 1, return of capital 0.1 per share, sell 2 at 4, 2-for-1 split.
+   Both ledgers accept all six rows, the pair is in the class with k = 1, the
+   reported figures DIFFER from the second row on, and (the theorem, evaluated)
+   the last row's cost bases are within 6 * cR 1. *)
+Local Open Scope Z_scope.
+Definition ex_acc : list tx := [
+  mk 100 (Buy (q 3 1) (q 3 1) (q 1 1) (q 1 1) (q 1 1)) default_aff;
+  mk 200 (Sell (q 1 1) (q 5 1) (q 0 1) (q 1 1) (q 1 1) None) default_aff;
+  mk 300 (Buy (q 2 1) (q 1 1) (q 0 1) (q 1 1) (q 1 1)) default_aff;
+  mk 400 (Roc (q 1 10) (q 1 1)) default_aff;
+  mk 500 (Sell (q 2 1) (q 4 1) (q 1 2) (q 1 1) (q 1 1) None) default_aff;
+  mk 600 (Split (q 2 1) (q 1 1) false) default_aff ].
+Local Close Scope Z_scope.
+Example C01_rounding_error_accumulates_nonvacuous :
+  Forall (fun t => valid_tx t = true) ex_acc /\
+  match run dec None ex_acc, run exact None ex_acc with
+  | (dsd, None), (dse, None) =>
+      length dsd = 6%nat /\ length dse = 6%nat /\ in_class 1 dsd dse = true /\
+      match nth_error dsd 1, nth_error dse 1, nth_error dsd 5, nth_error dse 5 with
+      | Some d1, Some e1, Some d5, Some e5 =>
+          match s_acb (d_post d1), s_acb (d_post e1), s_acb (d_post d5), s_acb (d_post e5) with
+          | Some a1, Some b1, Some a5, Some b5 =>
+              this a1 <> this b1 /\ this a5 <> this b5 /\
+              b5 - QcZ 6 * cR 1 <= a5 /\ a5 <= b5 + QcZ 6 * cR 1
+          | _, _, _, _ => False
+          end
+      | _, _, _, _ => False
+      end
+  | _, _ => False
+  end.
+Proof.
+  split; [repeat constructor|].
+  vm_compute. repeat split; discriminate.
+Qed.
